@@ -3,4 +3,6 @@ coq/Raft, correspondence of that model with the implementation, runtime monitor 
 from props import raftcommon as R
 
 PROPS = ('C12', 'C11')
-correspondence, search, replay = R.standard_module('C12', PROPS)
+# in the scenarios built around raising commands a broken snapshot / a replica that differs is a C12 record as well
+correspondence, search, replay = R.standard_module('C12', PROPS, {'scenario:raising_then_snapshot': ('C09', 'C01', 'C05'),
+                                                                  'scenario:raising_replay_after_restart': ('C01', 'C06')})
